@@ -22,6 +22,7 @@ import (
 	"sort"
 	"strings"
 	"sync"
+	"sync/atomic"
 	"time"
 
 	"verif/lib/apifix"
@@ -294,6 +295,8 @@ type nodeCtx struct {
 	addr  string
 	port  string
 	tokMu sync.Mutex // token fetch + use is one critical section per node (a new token supersedes the old)
+	// issued: this harness has obtained a token from the node (false = start-up state: no token was ever requested)
+	issued atomic.Bool
 }
 
 func (n *nodeCtx) authHeader(kind string) (string, bool) {
@@ -428,6 +431,7 @@ func (n *nodeCtx) fetchToken() (string, error) {
 	if err := json.Unmarshal(r.Body, &doc); err != nil || doc.Token == "" {
 		return "", fmt.Errorf("token fetch: body %q", r.Body)
 	}
+	n.issued.Store(true)
 	return doc.Token, nil
 }
 
@@ -598,7 +602,16 @@ func (h *harness) run(n *nodeCtx, g *apifix.Gen, gmu *sync.Mutex, p probe) {
 	if p.Path == "/api/v1/csrf" {
 		lock() // a token request supersedes the token another worker is about to use
 	}
-	if n.cfg.CSRF {
+	fkey, fexp, fphase, forged := parseForged(v.Token)
+	if n.cfg.CSRF && forged {
+		if fphase == phaseIssued && !n.issued.Load() { // replay of a single probe: bring the node into the recorded state
+			if err := n.ensureIssued(); err != nil {
+				h.r.Inconclusive(err.Error())
+				return
+			}
+		}
+		setHeader(q, apifixCSRFHeader, n.forgeToken(fkey, fexp, p.Method+" "+p.Path))
+	} else if n.cfg.CSRF {
 		switch v.Token {
 		case "valid", "superseded", "tampered":
 			lock()
@@ -636,7 +649,11 @@ func (h *harness) run(n *nodeCtx, g *apifix.Gen, gmu *sync.Mutex, p probe) {
 	} else if v.Token != "absent" && v.Token != "valid" {
 		setHeader(q, apifixCSRFHeader, "garbage")
 	}
+	freshNode := !n.issued.Load()
 	resp := apifix.Do(n.addr, q, 90*time.Second)
+	if resp.Fail == "" && (forged || freshNode) {
+		h.countForged(n, p, classify(p, resp), freshNode)
+	}
 	if os.Getenv("VERIF_C27_DEBUG") != "" && (resp.Dur > 200*time.Millisecond || resp.Fail != "") {
 		fmt.Fprintf(os.Stderr, "slow/fail %v %s %s %s fail=%s %s status=%d\n", resp.Dur, n.cfg.Name, p.Method, p.Path, resp.Fail, resp.Detail, resp.Status)
 	}
@@ -944,6 +961,18 @@ func (h *harness) runConfig(ci int, c *config) {
 			fmt.Fprintf(os.Stderr, "wallets at end: %d %s\n", rr.Status, regexp.MustCompile(`"filename": "[^"]*"`).FindAllString(string(rr.Body), -1))
 		}()
 	}
+	if c.CSRF {
+		// forged-token leg: first against the node nobody has asked for a token yet, then after its first token
+		fresh := h.forgedProbes(c, ci, phaseFresh)
+		vf.Parallel(len(fresh), 3, func(i int) { h.run(n, g, &gmu, fresh[i]) })
+		if err := n.ensureIssued(); err != nil {
+			h.r.Inconclusive(err.Error())
+			return
+		}
+		after := h.forgedProbes(c, ci, phaseIssued)
+		vf.Parallel(len(after), 3, func(i int) { h.run(n, g, &gmu, after[i]) })
+		h.r.Count("configurations.forged_token_leg", 1)
+	}
 	ps := h.probes(c, ci)
 	vf.Parallel(len(ps), 3, func(i int) { h.run(n, g, &gmu, ps[i]) })
 	h.r.Count("configurations", 1)
@@ -1103,6 +1132,7 @@ func main() {
 	}
 	r.Floor("class.HANDLER", 1000)
 	r.Floor("expired_token_probes", 5)
+	h.forgedFloors()
 	cleanup()
 	r.Finish("per configuration (API sets, CSRF, header check, credentials, whitelist; fixed list + seeded random subsets) every documented route, every registered route and unknown paths x 7 methods x header variants (one factor at a time around an all-good baseline, plus seeded multi-factor combinations); non-trivial = distinct (configuration, route, method, failed-condition set, response class)",
 		"expected route table (methods, API sets), the CSRF rules and the content-type rule come from src/api/README.md; Host/Origin/Referer rules from the doc comments of HostCheck/OriginRefererCheck; credentials from README 'Authentication'",
